@@ -180,6 +180,9 @@ def run(ctx):
         raise Infra("no accepted trace with a successful call: cannot run the self-test")
 
     ctx.sample({"trace": os.path.basename(files[0]), "events": results[0][4] - 1, "accepted": results[0][2]})
+    # extension: call cancellation on the client side (Cancel.tla), see design-notes/EXT-cancel.md
+    import ext_cancel
+    ext_cancel.run(ctx)
     # NextID is one atomic step: concurrent callers of one client never share an identifier
     ids = ctx.harness_json("system", ["c04-ids", "16", "150000" if thorough else "30000"], timeout=1800)
     ctx.failures(ids["failures"])
